@@ -587,6 +587,19 @@ def scale0_case(ctx, inst, e, suite):
         ctx.violation(f"{cls}: error_scaling[{e}]=0 gives {brief(o1)}, elements_to_ignore=[{e}] gives {brief(o2)}",
                       {"oracle": "ignore", "variant": "scale0", "inst": inst, "edge": list(e), "scale0": brief(o1), "ignored": brief(o2)},
                       site=f"{cls}.scale0_vs_ignore")
+        return
+    # the whole dead set at once: every ignored edge (and e) expressed through scale 0 only, against all of them ignored
+    dead = list(dict.fromkeys(ign + [e] + [(x[0], x[1]) for x in sc if frac(x[2]) == 0]))
+    live_sc = [x for x in sc if frac(x[2]) != 0]
+    v3 = dict(copy.deepcopy(inst), scaling=live_sc + [[a, b, "0"] for a, b in dead], ignore=[])
+    v4 = dict(copy.deepcopy(inst), scaling=live_sc, ignore=[list(x) for x in dead])
+    o3, o4 = outcome(fp, v3), outcome(fp, v4)
+    ctx.rep.cov["oracle_evaluations"] += 1
+    ctx.rep.count(suite, [inst, "scale0_all", e], nontrivial=o3["status"] == "solved", hist=[cls, "scale0_all_vs_ignore_all", o3["status"]])
+    if "timeout" not in (o3["status"], o4["status"]) and not same_outcome(o3, o4):
+        ctx.violation(f"{cls}: error_scaling=0 on {dead} gives {brief(o3)}, elements_to_ignore={dead} gives {brief(o4)}",
+                      {"oracle": "ignore", "variant": "scale0", "inst": inst, "edge": list(e), "dead": [list(x) for x in dead],
+                       "scale0": brief(o3), "ignored": brief(o4)}, site=f"{cls}.scale0_vs_ignore")
 
 
 def one_more_case(ctx, inst, e, suite, base=None):
@@ -641,7 +654,14 @@ def k5_ignore(ctx, inst, suite="K5.ignore"):
     cand = [e for e in edges if e not in ign]
     # 2. error scale 0 == ignore
     if cls in models.ERROR and cand:
-        scale0_case(ctx, inst, rng.choice(cand), suite)
+        e0 = rng.choice(cand)
+        scale0_case(ctx, inst, e0, suite)
+        if models.is_cyc(cls):
+            # ... also when the class is told which edges to trust for its safety optimisation (explicitly, or by a
+            # percentile of the values): an edge of scale 0 must drop out of that set exactly as an ignored one does
+            extra = {"trusted_edges_for_safety": [list(e0)] + [list(x) for x in cand if rng.random() < 0.3]} \
+                if rng.random() < 0.5 else {"trusted_edges_for_safety_percentile": rng.choice([0, 25, 50])}
+            scale0_case(ctx, dict(inst, ctor_extra=extra), e0, suite)
     # 3. ignoring one more edge never unsolves an error / cover model and never worsens the objective
     if cls in models.ERROR | models.COVER and cand:
         one_more_case(ctx, inst, rng.choice(cand), suite, base)
@@ -893,6 +913,19 @@ def run(ctx):
                 es = [tuple(e) for e in inst["edges"]]
                 inst["ignore"] = [list(e) for e in rng.sample(es, 1)] if len(es) > 1 else []
             k5_ignore(ctx, inst)
+    # ... a side route of large values that is to be left out of the account: with the class choosing the edges it trusts
+    # by a percentile of the values, the neutralised route must not be among them (k is tight: one walk)
+    for cls in ("kLeastAbsErrorsCycles", "kMinPathErrorCycles"):
+        for it in range(ctx.n(4, 20)):
+            x, big = rng.choice([5, 10]), rng.choice([40, 50])
+            fl = {("s", "a"): x, ("a", "b"): 2 * x, ("b", "a"): x, ("b", "t"): x, ("b", "j"): big, ("j", "t"): big}
+            edges = list(fl); rng.shuffle(edges)
+            nodes = sorted({n for e in edges for n in e}); rng.shuffle(nodes)
+            inst = {"cls": cls, "nodes": nodes, "edges": [list(e) for e in edges], "origin": "edge", "weight_type": "int",
+                    "constraints": [], "coverage": "1", "ignore": [["j", "t"]], "starts": [], "ends": [], "options": {},
+                    "flow": [[u, v, str(fl[(u, v)])] for u, v in edges], "k": 1,
+                    "ctor_extra": {"trusted_edges_for_safety_percentile": rng.choice([50, 60])}}
+            scale0_case(ctx, inst, ("b", "j"), "K5.ignore.junk_route")
     # (d) starts / ends
     for cls in models.ALL_CLASSES:
         for it in range(ctx.n(4, 40)):
